@@ -181,14 +181,47 @@ class ExpDriver:
         import cuqi
         self.cfg, self.rows, self.real = cfg, rows, real
         self.target, self.T, self.const = build_target(cfg, rows, real)
-        self.cls = _cls(cuqi.experimental.mcmc, EXP[cfg["k"]])
+        # realisation "ula" (abort facet only): the unadjusted Langevin kernel on the configuration of a MALA behaviour
+        self.cls = _cls(cuqi.experimental.mcmc, "ULA" if real == "ula" else EXP[cfg["k"]])
         self.sv0 = sv0
         self.x0 = np.array(cfg["x0"], dtype=float)
         self.s = None
+        self.ref = None
 
     def construct(self):
         self.s = self.cls(self.target, scale=scale_value(self.cfg, self.sv0), initial_point=self.x0.copy())
         self.s.initialize()
+
+    def abort(self, normals, uniforms, kind, n, how="step"):
+        """one transition (step() or sample(1)) during which the n-th target evaluation of `kind` raises
+        -> (outcome, fired): outcome "propagated" | "propagated_as_<type>" | "returned" (swallowed or not reached)"""
+        if self.T is None:
+            raise MachineryError("realisation %s cannot be armed" % self.real)
+        self.T.arm(kind, n)
+        try:
+            with scripted({"normal": list(normals), "uniform": list(uniforms)}):
+                try:
+                    if how == "sample":
+                        self.s.sample(1)
+                    else:
+                        self.s.step()
+                    outcome = "returned"
+                except InjectedFailure:
+                    outcome = "propagated"
+                except (ScriptError, MachineryError):
+                    raise
+                except Exception as ex:
+                    if not self.T.fired:
+                        raise
+                    outcome = "propagated_as_" + type(ex).__name__
+        finally:
+            fired = self.T.disarm()
+        return outcome, fired
+
+    def corrupt_cache(self):
+        """binding self-test only: make the cached evaluation stale through the public attribute"""
+        name = STATE_KEYS["clik" if self.cfg["k"] == "PCN" else "clp"]
+        setattr(self.s, name, getattr(self.s, name) + 1.0)
 
     def state(self):
         st = self.s.get_state()["state"]
@@ -246,6 +279,7 @@ class LegDriver:
         self.x0 = np.array(cfg["x0"], dtype=float)
         self.s = None
         self.st = None
+        self.ref = None
 
     def construct(self):
         from .zoo import quiet
@@ -269,26 +303,86 @@ class LegDriver:
         out["scale"] = np.array(self.s.scale, dtype=float).reshape(-1)
         return out
 
-    def transition(self, normals, uniforms, warm):
+    def _single_update(self):
         k = self.cfg["k"]
         x = self.st["x"].copy()                      # a copy: legacy CWMH.single_update writes into its argument (C14-F1)
-        with scripted({"normal": list(normals), "uniform": list(uniforms)}) as st:
-            if k == "MALA":
-                xn, lpn, gn, acc = self.s.single_update(x, self.st["clp"], self.st["cgrad"].copy())
-                new = {"x": xn, "clp": lpn, "cgrad": gn}
-            elif k == "PCN":
-                xn, ln, acc = self.s.single_update(x, self.st["clik"])
-                new = {"x": xn, "clik": ln}
-            else:
-                xn, lpn, acc = self.s.single_update(x, self.st["clp"])
-                new = {"x": xn, "clp": lpn}
+        if k == "MALA":
+            xn, lpn, gn, acc = self.s.single_update(x, self.st["clp"], self.st["cgrad"].copy())
+            new = {"x": xn, "clp": lpn, "cgrad": gn}
+        elif k == "PCN":
+            xn, ln, acc = self.s.single_update(x, self.st["clik"])
+            new = {"x": xn, "clik": ln}
+        else:
+            xn, lpn, acc = self.s.single_update(x, self.st["clp"])
+            new = {"x": xn, "clp": lpn}
+        return new, acc
+
+    def _thread(self, new):
         self.st = {"x": np.array(new["x"], dtype=float).reshape(-1).copy()}
         for q in ("clp", "clik"):
             if q in new:
                 self.st[q] = float(new[q])
         if "cgrad" in new:
             self.st["cgrad"] = np.array(new["cgrad"], dtype=float).reshape(-1).copy()
+
+    def transition(self, normals, uniforms, warm):
+        with scripted({"normal": list(normals), "uniform": list(uniforms)}) as st:
+            new, acc = self._single_update()
+        self._thread(new)
         return _flag(acc, self.cls.__name__), st.remaining()
+
+    def abort(self, normals, uniforms, kind, n, how="step"):
+        """single_update during which the n-th target evaluation of `kind` raises.  The state is threaded by the caller
+        (as _sample does): an exception leaves the caller with the state it passed in."""
+        if self.T is None:
+            raise MachineryError("realisation %s cannot be armed" % self.real)
+        self.T.arm(kind, n)
+        try:
+            with scripted({"normal": list(normals), "uniform": list(uniforms)}):
+                try:
+                    new, _ = self._single_update()
+                    self._thread(new)
+                    outcome = "returned"
+                except InjectedFailure:
+                    outcome = "propagated"
+                except (ScriptError, MachineryError):
+                    raise
+                except Exception as ex:
+                    if not self.T.fired:
+                        raise
+                    outcome = "propagated_as_" + type(ex).__name__
+        finally:
+            fired = self.T.disarm()
+        return outcome, fired
+
+    def corrupt_cache(self):
+        q = "clik" if self.cfg["k"] == "PCN" else "clp"
+        self.st[q] = self.st[q] + 1.0
+
+    def sample_run(self, normals, uniforms, arm=None):
+        """sampler.sample(2) on the sampler object: evaluation of the initial point + ONE transition from x0.
+        arm = (kind, n): the n-th evaluation of the transition raises (the evaluation of the initial point, made first, is
+        not an evaluation of the transition).  -> (Samples | None, outcome, fired)"""
+        from .zoo import quiet
+        if arm is not None:
+            self.T.arm(arm[0], arm[1] + 1)
+        res = None
+        try:
+            with scripted({"normal": list(normals), "uniform": list(uniforms)}), quiet():
+                try:
+                    res = self.s.sample(2)
+                    outcome = "returned"
+                except InjectedFailure:
+                    outcome = "propagated"
+                except (ScriptError, MachineryError):
+                    raise
+                except Exception as ex:
+                    if arm is None or not self.T.fired:
+                        raise
+                    outcome = "propagated_as_" + type(ex).__name__
+        finally:
+            fired = self.T.disarm()
+        return res, outcome, fired
 
     def set_scale(self, sv):
         # warm-up of the stateless interface: a real adaptive run (changes only self.scale), then a lattice scale again
@@ -313,6 +407,85 @@ def driver(cfg, rows, sv0, real="user"):
     return (ExpDriver if cfg["iface"] == "exp" else LegDriver)(cfg, rows, sv0, real)
 
 
+def fresh_eval(drv, x):
+    """evaluations at x by an UN-INSTRUMENTED target of the same configuration, built from the spec's tables
+    (oracle of the coherence claim after an aborted transition)"""
+    if drv.ref is None:
+        drv.ref = build_target(drv.cfg, drv.rows, drv.real)[0]
+    ref, k = drv.ref, drv.cfg["k"]
+    x = np.array(x, dtype=float).reshape(-1)
+    out = {}
+    if k == "PCN":
+        lik = ref[0] if isinstance(ref, tuple) else ref.likelihood
+        out["clik"] = np.array(lik.logd(x), dtype=float).reshape(-1)
+    else:
+        out["clp"] = np.array(ref.logd(x), dtype=float).reshape(-1)
+        if k == "MALA":
+            out["cgrad"] = np.array(ref.gradient(x), dtype=float).reshape(-1)
+    return out
+
+
+CACHE_NAME = {"x": "point", "clp": "cache_lp", "cgrad": "cache_grad", "clik": "cache_lik", "scale": "scale"}
+
+
+def coherent(drv, got):
+    """-> None, or (cache name, cached value, fresh value) of the first cached evaluation that does not belong to the point"""
+    fr = fresh_eval(drv, got["x"])
+    for q in ("clp", "cgrad", "clik"):
+        if q in fr:
+            if q not in got or got[q] is None:
+                raise MachineryError("state of %s has no entry for %s" % (drv.cls.__name__, q))
+            if not close(got[q], fr[q]):
+                return CACHE_NAME[q], got[q], fr[q]
+    return None
+
+
+def new_abort_stats():
+    return {"outcome": {}, "realised": {}, "not_reached": 0, "continued": {}, "other_branch": 0, "sample_level": 0,
+            "unadjusted": 0}
+
+
+def _bump(d, key):
+    d[key] = d.get(key, 0) + 1
+
+
+def script_for(cfg, pairs, abort=None, salt=0, flip=False):
+    """scripted draws of one transition: the noise that carries x to the proposal(s) of the spec and one uniform per
+    decision, just below / above the spec's threshold.  abort: entry of the action Abort (its proposal is never decided)"""
+    k = cfg["k"]
+    head = abort if not pairs else pairs[0][0]
+    if k == "CW":
+        z = np.zeros(cfg["d"])
+        for p in [p for p, _ in pairs] + ([abort] if abort else []):
+            z[p["j"] - 1] = ext(p["xi"][p["j"] - 1])
+        normals = [z]
+    elif k == "PCN":
+        normals = [vec(head["xi"]) - float(cfg["m"])]        # Gaussian(m, I).sample() = m + e
+    else:
+        normals = [vec(head["xi"])]
+    us = []
+    for i, (p, d) in enumerate(pairs):
+        dd = d
+        if flip and d["cls"] in ("Below", "Above") and frac(p["r"]) < 0:
+            dd = dict(d, cls="Above" if d["cls"] == "Below" else "Below")
+        us.append(uniform_for(dd, p, salt + i))
+    return normals, us
+
+
+def expect_state(cfg, e, scv, const=0.0):
+    """abstract state logged by the spec after an action -> the values the real state is compared with"""
+    exp = {"x": np.array(e["x"] if "x" in e else cfg["x0"], dtype=float)}
+    if ext(e["clp"]) is not None:
+        exp["clp"] = ext(e["clp"])
+    if ext(e["clik"]) is not None:
+        exp["clik"] = ext(e["clik"]) + const
+    if len(e["cgrad"]):
+        exp["cgrad"] = vec(e["cgrad"])
+    if scv is not None:
+        exp["scale"] = vec(scv)
+    return exp
+
+
 # ----------------------------------------------------------------------------------------------------------------
 def uniform_for(dec, prop, salt):
     """the scripted uniform of one Decide: just below / above the threshold exp(r) the SPEC computes"""
@@ -331,10 +504,16 @@ def close(a, b, rtol=1e-9, atol=1e-9):
 
 
 def split_transitions(prog):
-    """group the action list into items: ('T', [(p, d), ...]) one kernel transition | ('t', e) | ('s', e)"""
+    """group the action list into items: ('T', [(p, d), ...]) one kernel transition | ('t', e) | ('s', e) |
+    ('A', ([(p, d), ...], x)) an aborted transition: the component proposals decided before the failing evaluation + Abort entry"""
     items, cur, i = [], [], 0
     while i < len(prog):
         e = prog[i]
+        if e["a"] == "x":
+            items.append(("A", (cur, e)))
+            cur = []
+            i += 1
+            continue
         if e["a"] == "p":
             d = prog[i + 1]
             cur.append((e, d))
@@ -348,14 +527,33 @@ def split_transitions(prog):
     return items
 
 
-def run_behaviour(ctx, beh, rows, sv0, root, real="user", sigprefix="replay", salt=0, flip=False):
+def _base(prefix, cfg, real):
+    b = "%s/%s/%s/d=%d/tgt=%s/m=%d" % (prefix, cfg["k"], cfg["iface"], cfg["d"], cfg["tgt"], cfg["m"])
+    if real != "user":
+        b += "/real=" + real
+    return b
+
+
+def arm_of(cfg, a):
+    """Abort entry of the spec -> (kind, n) of TableTarget.arm: which evaluation of the transition raises"""
+    if a["ev"] == "grad":
+        return "grad", 1
+    return "lp", (a["k"] if cfg["k"] == "CW" else 1)
+
+
+def run_behaviour(ctx, beh, rows, sv0, root, real="user", sigprefix="replay", salt=0, flip=False, stats=None, corrupt=False):
     """Execute one spec behaviour on the real sampler; compare after every action.  Returns number of transitions run.
-    flip=True (binding self-test only): script the uniform of the opposite decision class."""
+    flip=True (binding self-test only): script the uniform of the opposite decision class.
+    Behaviours with an action Abort (aborted transition): the target raises at the evaluation the spec names; afterwards the
+    caches must belong to the point (fresh evaluation by an un-instrumented target), the point must be one of the kernel
+    states the spec allows, and - when the real state is the one this behaviour continues from - the following
+    transitions must conform like any other (signatures abort/...).  corrupt=True (binding self-test only): the cache is
+    made stale after the abort."""
     cfg = beh["cfg"]
     k = cfg["k"]
-    base = "%s/%s/%s/d=%d/tgt=%s/m=%d" % (sigprefix, k, cfg["iface"], cfg["d"], cfg["tgt"], cfg["m"])
-    if real != "user":
-        base += "/real=" + real
+    base = _base(sigprefix, cfg, real)
+    if stats is None:
+        stats = new_abort_stats()
     case = {"kind": "beh", "cfg": cfg, "prog": beh["prog"], "rows": rows, "sv0": sv0, "root": root, "real": real, "salt": salt}
     drv = driver(cfg, rows, sv0, real)
     try:
@@ -366,18 +564,6 @@ def run_behaviour(ctx, beh, rows, sv0, root, real="user", sigprefix="replay", sa
         ctx.mismatch(base + "/construct", case, "sampler cannot be constructed: %s: %s" % (type(ex).__name__, str(ex)[:200]))
         return 0
     const = drv.const
-
-    def expect_state(e, scv):
-        exp = {"x": np.array(e["x"] if "x" in e else cfg["x0"], dtype=float)}
-        if ext(e["clp"]) is not None:
-            exp["clp"] = ext(e["clp"])
-        if ext(e["clik"]) is not None:
-            exp["clik"] = ext(e["clik"]) + const
-        if len(e["cgrad"]):
-            exp["cgrad"] = vec(e["cgrad"])
-        if scv is not None:
-            exp["scale"] = vec(scv)
-        return exp
 
     def compare(exp, clause, what, pos):
         got = drv.state()
@@ -391,14 +577,14 @@ def run_behaviour(ctx, beh, rows, sv0, root, real="user", sigprefix="replay", sa
             if q == "scale" and g.size == 1 and e.size > 1:
                 g = np.full(e.shape, g[0])
             if not close(g, e):
-                name = {"x": "point", "clp": "cache_lp", "cgrad": "cache_grad", "clik": "cache_lik", "scale": "scale"}[q]
+                name = CACHE_NAME[q]
                 ctx.mismatch("%s/%s/%s" % (base, clause, name), dict(case, pos=pos),
                              "%s: %s differs from the specification's state" % (what, name), expected=e, observed=g)
                 return False
         return True
 
     cur_sv = sv0
-    prev_exp = expect_state(root, sv0)
+    prev_exp = expect_state(cfg, root, sv0, const)
     if not compare(prev_exp, "init", "after initialisation", -1):
         return 0
     items = split_transitions(beh["prog"])
@@ -422,28 +608,82 @@ def run_behaviour(ctx, beh, rows, sv0, root, real="user", sigprefix="replay", sa
             except Exception as ex:
                 ctx.mismatch(base + "/reload/error", dict(case, pos=pos), "get_state/set_state raised %s: %s" % (type(ex).__name__, str(ex)[:200]))
                 return done
-            prev_exp = expect_state(e, e["sv"])
+            prev_exp = expect_state(cfg, e, e["sv"], const)
             if not compare(prev_exp, "reload", "after get_state -> fresh sampler -> set_state", pos):
                 return done
+            continue
+        if kind == "A":
+            # ---- a transition that aborts: the target raises at the evaluation named by the spec ----------------------
+            pairs, a = e
+            abase = "%s/k=%d" % (_base("abort", cfg, real), a["k"])
+            normals, us = script_for(cfg, pairs, abort=a, salt=salt + pos)
+            akind, an = arm_of(cfg, a)
+            how = "sample" if (cfg["iface"] == "exp" and (salt + pos) % 2 == 0) else "step"
+            try:
+                outcome, fired = drv.abort(normals, us, akind, an, how)
+            except ScriptError as ex:
+                raise MachineryError("the kernel %s asked for random draws the binding does not script: %s" % (drv.cls.__name__, ex))
+            except MachineryError:
+                raise
+            except Exception as ex:
+                ctx.mismatch(base + "/step/error", dict(case, pos=pos), "transition raised %s: %s" % (type(ex).__name__, str(ex)[:200]))
+                return done
+            if not fired:
+                stats["not_reached"] += 1           # this kernel does not make the modelled evaluation: nothing aborted
+                return done
+            who = "%s.%s" % (drv.cls.__module__.replace("cuqi.", ""), drv.cls.__name__)
+            _bump(stats["outcome"], "%s: %s" % (who, outcome))       # neither required nor forbidden: observation
+            _bump(stats["realised"], "%s/%s/k=%d" % (k if real != "ula" else "ULA", cfg["iface"], a["k"]))
+            if corrupt:
+                drv.corrupt_cache()
+            got = drv.state()
+            bad = coherent(drv, got)
+            if bad is not None:
+                ctx.mismatch(abase + "/cache_coherent", dict(case, pos=pos),
+                             "after a transition that aborted at target evaluation %d (%s raised; %s) the cached %s is not the "
+                             "evaluation at the sampler's current point %s" % (a["k"], a["ev"], outcome, bad[0], got["x"].tolist()),
+                             expected=bad[2], observed=bad[1])
+                return done
+            alts = [np.array(q["x"], dtype=float) for q in a["alt"]]
+            if not any(close(got["x"], q) for q in alts):
+                ctx.mismatch(abase + "/point", dict(case, pos=pos),
+                             "after a transition that aborted at target evaluation %d the chain is at a point that no decided "
+                             "proposal led to" % a["k"], expected=alts, observed=got["x"])
+                return done
+            if not close(got["x"], np.array(a["x"], dtype=float)):
+                stats["other_branch"] += 1          # the code follows the other allowed state: replayed by the sibling behaviour
+                return done
+            base = abase                            # what follows is reported as a consequence of the aborted transition
+            prev_exp = expect_state(cfg, a, cur_sv, const)
+            if not compare(prev_exp, "state", "after the aborted transition", pos):
+                return done
+            if real == "ula":
+                # the unadjusted kernel is outside the Metropolis-Hastings model: only the coherence claim, after the
+                # aborted and after the following transition
+                stats["unadjusted"] += 1
+                if pos + 1 < len(items) and items[pos + 1][0] == "T":
+                    normals, us = script_for(cfg, items[pos + 1][1], salt=salt + pos + 1)
+                    try:
+                        drv.transition(normals, us, False)
+                    except (ScriptError, MachineryError) as ex:
+                        raise MachineryError("ULA after an aborted transition: %s" % ex)
+                    except Exception as ex:
+                        ctx.mismatch(base + "/step/error", dict(case, pos=pos + 1), "transition raised %s: %s" % (type(ex).__name__, str(ex)[:200]))
+                        return done
+                    got = drv.state()
+                    bad = coherent(drv, got)
+                    if bad is not None:
+                        ctx.mismatch(base + "/next/cache_coherent", dict(case, pos=pos + 1),
+                                     "after the transition following an aborted one the cached %s is not the evaluation at the "
+                                     "current point" % bad[0], expected=bad[2], observed=bad[1])
+                    done += 1
+                return done
+            _bump(stats["continued"], "%s/%s/k=%d/%s" % (k, cfg["iface"], a["k"], a["mode"]))
             continue
         # ---- one kernel transition -------------------------------------------------------------------------
         pairs = e
         warm = pos + 1 < len(items) and items[pos + 1][0] == "t"
-        if k == "CW":
-            z = np.zeros(cfg["d"])
-            for p, _ in pairs:
-                z[p["j"] - 1] = ext(p["xi"][p["j"] - 1])
-            normals = [z]
-        elif k == "PCN":
-            normals = [vec(pairs[0][0]["xi"]) - float(cfg["m"])]        # Gaussian(m, I).sample() = m + e
-        else:
-            normals = [vec(pairs[0][0]["xi"])]
-        us = []
-        for i, (p, d) in enumerate(pairs):
-            dd = d
-            if flip and d["cls"] in ("Below", "Above") and frac(p["r"]) < 0:
-                dd = dict(d, cls="Above" if d["cls"] == "Below" else "Below")
-            us.append(uniform_for(dd, p, salt + pos + i))
+        normals, us = script_for(cfg, pairs, salt=salt + pos, flip=flip)
         T = drv.T
         if T is not None:
             n0 = len(T.evals)
@@ -461,7 +701,7 @@ def run_behaviour(ctx, beh, rows, sv0, root, real="user", sigprefix="replay", sa
         # decides wrongly must be reported as a violation of the property, not as a machinery error
         done += 1
         last_d = pairs[-1][1]
-        exp = expect_state(last_d, None if (warm and cfg["iface"] == "exp") else cur_sv)
+        exp = expect_state(cfg, last_d, None if (warm and cfg["iface"] == "exp") else cur_sv, const)
         prev_exp = exp
         got = drv.state()
         # (1) per (component) proposal, in order: the point the code evaluated, then - for a non-finite proposal - that it
@@ -508,3 +748,75 @@ def run_behaviour(ctx, beh, rows, sv0, root, real="user", sigprefix="replay", sa
                 UNUSED_DRAWS["example"] = {"sampler": drv.cls.__module__ + "." + drv.cls.__name__, "unused": left,
                                            "classes": [d["cls"] for _, d in pairs]}
     return done
+
+
+def run_abort_sample(ctx, beh, rows, sv0, root, real="user", salt=0, stats=None):
+    """Stateless interface at the level of the sampler OBJECT: sampler.sample(2) (= evaluation of x0 + one transition) aborts at
+    the evaluation named by the spec; a following sampler.sample(2) on the same object starts from the same x0 and must make the
+    transition of the spec: next point and its cached evaluation (Samples.loglike_eval) for a uniform just below / above the
+    spec's threshold.  Applies to behaviours that begin with the aborted transition and continue from the initial state."""
+    cfg = beh["cfg"]
+    items = split_transitions(beh["prog"])
+    if cfg["iface"] != "leg" or len(items) < 2 or items[0][0] != "A" or items[1][0] != "T":
+        return 0
+    pairs, a = items[0][1]
+    if [int(q) for q in a["x"]] != [int(q) for q in cfg["x0"]]:
+        return 0
+    abase = "%s/k=%d/sample" % (_base("abort", cfg, real), a["k"])
+    case = {"kind": "abort_sample", "cfg": cfg, "prog": beh["prog"], "rows": rows, "sv0": sv0, "root": root, "real": real, "salt": salt}
+    drv = LegDriver(cfg, rows, sv0, real)
+    try:
+        drv.construct()
+    except MachineryError:
+        raise
+    except Exception as ex:
+        ctx.mismatch(_base("replay", cfg, real) + "/construct", case, "sampler cannot be constructed: %s: %s" % (type(ex).__name__, str(ex)[:200]))
+        return 0
+    normals, us = script_for(cfg, pairs, abort=a, salt=salt)
+    try:
+        _, outcome, fired = drv.sample_run(normals, us, arm=arm_of(cfg, a))
+    except ScriptError as ex:
+        raise MachineryError("%s.sample(2) asked for random draws the binding does not script: %s" % (drv.cls.__name__, ex))
+    except MachineryError:
+        raise
+    except Exception as ex:
+        ctx.mismatch(_base("replay", cfg, real) + "/sample/error", case, "sample(2) raised %s: %s" % (type(ex).__name__, str(ex)[:200]))
+        return 0
+    if not fired:
+        if stats is not None:
+            stats["not_reached"] += 1
+        return 0
+    if stats is not None:
+        _bump(stats["outcome"], "sampler.%s.sample: %s" % (drv.cls.__name__, outcome))
+        stats["sample_level"] += 1
+    nxt = items[1][1]
+    normals, us = script_for(cfg, nxt, salt=salt + 1)
+    try:
+        res, outcome, _ = drv.sample_run(normals, us)
+    except ScriptError as ex:
+        raise MachineryError("%s.sample(2) asked for random draws the binding does not script: %s" % (drv.cls.__name__, ex))
+    except MachineryError:
+        raise
+    except Exception as ex:
+        ctx.mismatch(abase + "/error", case, "sample(2) after an aborted sample(2) raised %s: %s" % (type(ex).__name__, str(ex)[:200]))
+        return 1
+    exp = expect_state(cfg, nxt[-1][1], None, drv.const)
+    try:
+        X = np.asarray(res.samples, dtype=float)
+        le = np.asarray(res.loglike_eval, dtype=float).reshape(-1)
+        if X.shape != (cfg["d"], 2) or le.size != 2:
+            raise ValueError("shapes %r %r" % (X.shape, le.shape))
+    except Exception as ex:
+        raise MachineryError("sample(2) of %s returned no (samples, loglike_eval) of 2 states: %s" % (drv.cls.__name__, ex))
+    if not close(X[:, 1], exp["x"]):
+        ctx.mismatch(abase + "/point", case,
+                     "sample(2) on a sampler object whose previous sample(2) aborted at target evaluation %d: the transition from x0 "
+                     "differs from the specification's (decision classes %s)" % (a["k"], [d["cls"] for _, d in nxt]),
+                     expected=exp["x"], observed=X[:, 1])
+        return 1
+    ecache = exp["clik"] if cfg["k"] == "PCN" else exp["clp"]
+    if not close(le[1], ecache):
+        ctx.mismatch(abase + "/cache", case,
+                     "sample(2) after an aborted sample(2): the evaluation recorded with the new state differs from the specification's",
+                     expected=ecache, observed=le[1])
+    return 1
